@@ -1,5 +1,5 @@
 """C03 - a dead or stale handle can never read or change a live entity's components."""
-from ..core import rv_const_bool, strip_ref
+from ..core import base_ty, rv_const_bool, strip_ref
 from ..summaries import ENTITY, AliveClass, IndexSinks, entity_of_index
 
 EXPLANATION = (
@@ -18,9 +18,13 @@ NOT_DECIDED = ("that Allocator::is_alive itself computes the right answer (C02);
 TRUSTED = ["rustc nightly MIR construction and trait resolution", "sa/ fact extractor and analyses (selftest mutants/benign edits)"]
 
 EXCEPTIONS = {
-    "changeset::ChangeSet::<T>::add": "a change set has no entities resource; C16 quantifies over arbitrary indices",
     "<storage::MaskedStorage<T> as storage::AnyStorage>::drop": "purges handles that kill/merge just declared dead (who may call it: C05-R4)",
 }
+
+# one named type: a ChangeSet owns a private raw storage that is no component storage of any world - it has no entities resource to ask, and C16
+# quantifies over arbitrary indices.  Only raw accesses whose receiver is rooted in the method's own `self` are excepted.
+CHANGESET = "changeset::ChangeSet"
+CHANGESET_WHY = "a change set has no entities resource and its private storage is no world component storage; C16 quantifies over arbitrary indices"
 
 # public access paths named by the property statement/anchors: (self type base, method)
 ANCHORS = [
@@ -43,6 +47,7 @@ def run(ctx):
     ctx.rule("C03-R2", "every positive result (Some/Ok/true) of a handle-taking accessor is guarded by is_alive(x)")
     for sym, why in EXCEPTIONS.items():
         ctx.exception(sym, why)
+    ctx.exception("impl " + CHANGESET + " (accesses to its own inner storage)", CHANGESET_WHY)
     ctx.exception("impl world::entity::Allocator", "the allocator is the definition of aliveness, it holds no components")
     for cfg in configs(ctx.tier):
         facts = ctx.xfacts(cfg)
@@ -74,19 +79,21 @@ def run_config(ctx, facts, R1="C03-R1", R2="C03-R2", only=None, anchors=None, si
                 continue
             for ai in sinks.sink_args(c):
                 if ai < len(t["args"]):
-                    sites.append((bb, t["line"], c["path"], b.operand_origin(t["args"][ai])))
+                    own = base_ty(b.self_ty or "") == CHANGESET and not b.trait_item and t["args"] and \
+                        any(r[0] == "param" and r[1] == 1 for r in b.roots(b.arg_origin(bb, 0)))
+                    sites.append((bb, t["line"], c["path"], b.operand_origin(t["args"][ai]), own))
         for bb, line, adt, field, opnd in sinks.field_sink_sites(b):
-            sites.append((bb, line, "%s.%s" % (adt, field), b.operand_origin(opnd)))
+            sites.append((bb, line, "%s.%s" % (adt, field), b.operand_origin(opnd), False))
         per_callee = {}
-        for bb, line, what, org in sites:
+        for bb, line, what, org, own in sites:
             x = entity_of_index(b, org)
             if x is None:
                 continue
             n = per_callee.get(what, 0)
             per_callee[what] = n + 1
             key = "%s -> %s #%d" % (b.path, what, n)
-            if b.path in EXCEPTIONS:
-                ctx.ob(R1, key, True, b.loc(line=line), "named exception: " + EXCEPTIONS[b.path], nontrivial=False)
+            if b.path in EXCEPTIONS or own:
+                ctx.ob(R1, key, True, b.loc(line=line), "named exception: " + (EXCEPTIONS.get(b.path) or CHANGESET_WHY), nontrivial=False)
                 continue
             ok, edges = alive.guarded(b, bb, x)
             nsites += 1
